@@ -1,4 +1,5 @@
 import Exetera.Model.FieldOps
+import Exetera.Lemmas.FieldOps
 /-!
 # C13 — field arithmetic, comparison and logic equal numpy's element-wise results
 
@@ -92,5 +93,453 @@ example : eval (fun s (xs : List Int) => (s, xs)) "NumericField" "__rfloordiv__"
 
 example : dtypeToStr "np.uint16" = some "uint16" := by decide +kernel
 example : dtypeToStr "np.float16" = none := by decide +kernel
+
+/-! ## The whole operator, over the regenerated helper bodies (`Gen/FieldOpsShape.lean`)
+
+`opBinary np w op l r` is `l <op> r` as Python evaluates it: operator protocol (`pyDunders`, numpy's deferral rule read off the
+regenerated `__array_ufunc__` attributes) → `cls.<dunder>` → `FieldDataOps.<method>` → the regenerated body of `_binary_op` /
+`_unary_op` / `numeric_divmod`. numpy (`np : Numpy α`) is opaque throughout; `w` is any heap. -/
+section whole
+variable {α : Type}
+
+/-- table fact: the FORWARD dunder of every supported binary operator runs `_binary_op` (`numeric_divmod` for divmod) with the
+    operator's symbol on (self, other) -/
+theorem forward_route : ∀ cls ∈ classes, ∀ op ∈ "divmod" :: binOps, supportsOp cls op = true →
+    (pyDunders op).bind (fun p => routeOf cls p.1) = (opSymbol op).map (fun s => (helperOf op, s, [0, 1])) := by
+  decide +kernel
+
+/-- table fact: the dunder Python falls back to when the LEFT operand is not a field: the reflected dunder applies the operator's
+    symbol to (other, self); for a comparison it is the mirrored comparison on (self, other) -/
+theorem reflected_route : ∀ cls ∈ classes, ∀ op ∈ "divmod" :: binOps, supportsOp cls op = true →
+    (pyDunders op).bind (fun p => routeOf cls p.2) =
+      (opSymbol op).map (fun s => (helperOf op, mirrorSym s, if cmpOps.contains op then [0, 1] else [1, 0])) := by
+  decide +kernel
+
+/-- table fact: `~` / `logical_not` run `_unary_op` with `operator.invert` / `np.logical_not` on (self) -/
+theorem unary_route : ∀ cls ∈ classes, ∀ op ∈ unOps, supportsUnary cls op = true →
+    (pyUnary op).bind (routeOf cls) = (opSymbol op).map (fun s => ("_unary_op", s, [0])) := by
+  decide +kernel
+
+/-- table fact (fix ff6219e): every one of the six classes makes `ndarray <op> field` defer to the field's reflected dunder -/
+theorem classes_defer : ∀ cls ∈ classes, defers cls = true := by decide +kernel
+
+theorem ops_total : (∀ op ∈ "divmod" :: binOps, (opSymbol op).isSome = true) ∧ (∀ op ∈ unOps, (opSymbol op).isSome = true) := by
+  decide +kernel
+
+/-- table fact: both divmod dunders are the body of `numeric_divmod` applied to (left, right) -/
+theorem divmod_routes : ∀ cls ∈ classes, supportsOp cls "divmod" = true →
+    routeOf cls "__divmod__" = some ("numeric_divmod", "np.divmod", [0, 1]) ∧
+    routeOf cls "__rdivmod__" = some ("numeric_divmod", "np.divmod", [1, 0]) := by decide +kernel
+
+theorem helperOf_bin : ∀ op ∈ binOps, helperOf op = "_binary_op" := by decide +kernel
+theorem mirror_noncmp : ∀ op ∈ "divmod" :: binOps, op ∉ cmpOps → (opSymbol op).map mirrorSym = opSymbol op := by decide +kernel
+theorem cmp_sub_bin : ∀ op ∈ cmpOps, op ∈ binOps := by decide +kernel
+
+/-- numpy's comparisons give the same answer with the operands exchanged and the comparison mirrored (`a < b` ≡ `b > a`, …).
+    An ASSUMPTION about numpy; used only where Python itself falls back to the mirrored comparison (`ndarray < field`). -/
+def MirrorLaw (np : Numpy α) : Prop :=
+  ∀ op ∈ cmpOps, ∀ s, opSymbol op = some s → ∀ x y, np.call (mirrorSym s) [y, x] = np.call s [x, y]
+
+/-- what "returns a new in-memory field holding `v` under dtype name `n`, everything else untouched" means -/
+def ReturnsNew (w w' : World α) (rid : Nat) (n : String) (v : α) : Prop :=
+  rid = w.next ∧ w.get? rid = none ∧ w'.get? rid = some ⟨"NumericMemField", n, some v⟩ ∧
+    (∀ id, id ≠ rid → w'.get? id = w.get? id) ∧ w'.frames = w.frames ∧ w'.next = w.next + 1 ∧ w'.wf
+
+/-- how a binary operator reaches a helper body: for every class, every operator the class supports (divmod included) and
+    every operand kind on either side, `l <op> r` IS a run of the regenerated `_binary_op` (`numeric_divmod`) body -/
+theorem opBinary_runs (np : Numpy α) (w : World α) (op : String) (l r : Operand α) (cls : String)
+    (hop : op ∈ "divmod" :: binOps) (hcls : cls ∈ classes) (hsup : supportsOp cls op = true)
+    (hdisp : dispatchClass w l r = some cls) :
+    ∃ s a b, opBinary np w op l r = runProg np s (if op = "divmod" then divmodProg else binaryProg) w [a, b] := by
+  have hf := forward_route cls hcls op hop hsup
+  have hr := reflected_route cls hcls op hop hsup
+  cases hp : pyDunders op with
+  | none => simp [supportsOp, hp] at hsup
+  | some p =>
+    obtain ⟨fwd, refl⟩ := p
+    cases hs : opSymbol op with
+    | none => have := ops_total.1 op hop; rw [hs] at this; cases this
+    | some sym =>
+      rw [hp, hs] at hf hr
+      simp only [Option.bind_some, Option.map_some] at hf hr
+      have key : ∀ (id : Nat) (v : Val α), w.classOf id = some cls →
+          ∃ s a b, callDunder np w cls refl [.fld id, v] = runProg np s (if op = "divmod" then divmodProg else binaryProg) w [a, b] := by
+        intro id v _
+        by_cases hc : cmpOps.contains op = true
+        · rw [hc] at hr
+          exact ⟨_, _, _, by simp [callDunder, hr, pick, lookup_helperOf]; rfl⟩
+        · have hc' : cmpOps.contains op = false := by simpa using hc
+          rw [hc'] at hr
+          exact ⟨_, _, _, by simp [callDunder, hr, pick, lookup_helperOf]; rfl⟩
+      cases l with
+      | field id =>
+        simp only [dispatchClass] at hdisp
+        exact ⟨_, _, _, by simp [opBinary, hp, hdisp, callDunder, hf, pick, lookup_helperOf]; rfl⟩
+      | array a =>
+        cases r with
+        | field id =>
+          simp only [dispatchClass] at hdisp
+          obtain ⟨s, x, y, h⟩ := key id (.arr a) hdisp
+          exact ⟨s, x, y, by simp [opBinary, hp, hdisp, classes_defer cls hcls, Operand.val, h]⟩
+        | array b => simp [dispatchClass] at hdisp
+        | scalar b => simp [dispatchClass] at hdisp
+      | scalar a =>
+        cases r with
+        | field id =>
+          simp only [dispatchClass] at hdisp
+          obtain ⟨s, x, y, h⟩ := key id (.arr a) hdisp
+          exact ⟨s, x, y, by simp [opBinary, hp, hdisp, classes_defer cls hcls, Operand.val, h]⟩
+        | array b => simp [dispatchClass] at hdisp
+        | scalar b => simp [dispatchClass] at hdisp
+
+/-- **C13, value and dtype.** For every field class, every single-result binary operator the class supports
+    (`+ - * / // % & ^ |` and the comparisons), with a field, an ndarray or a scalar on either side — forward `field <op> x`,
+    field-field, and `ndarray <op> field` / `scalar <op> field` through the reflected dunder — for every numpy and every heap:
+    the operator returns ONE new NumericMemField whose data is `sym(l', r')` on the operands' underlying arrays in the order
+    written, declared under `dtype_to_str` of numpy's result dtype; no other object and no dataframe changes.
+    (A comparison with a non-field on the LEFT is `reflected_comparison_eq_numpy`: Python mirrors it.)
+    `hn` says numpy's result dtype is one `dtype_to_str` names — otherwise the operator raises (`unsupported_dtype_raises`). -/
+theorem operator_result_eq_numpy (np : Numpy α) (w : World α) (op : String) (l r : Operand α) (cls sym n : String) (x y : α)
+    (hw : w.wf) (hop : op ∈ binOps) (hcls : cls ∈ classes) (hsup : supportsOp cls op = true)
+    (hdisp : dispatchClass w l r = some cls) (hside : l.isField = true ∨ op ∉ cmpOps)
+    (hx : l.under np w = .ok x) (hy : r.under np w = .ok y) (hs : opSymbol op = some sym)
+    (hn : dtypeToStr (np.dtypeOf (np.call sym [x, y])) = some n) :
+    ∃ w' rid, opBinary np w op l r = .ok (w', [rid]) ∧ ReturnsNew w w' rid n (np.call sym [x, y]) := by
+  have hmem : op ∈ "divmod" :: binOps := List.mem_cons_of_mem _ hop
+  have hf := forward_route cls hcls op hmem hsup
+  have hr := reflected_route cls hcls op hmem hsup
+  have hfresh := World.get?_none_of_wf hw (Nat.le_refl w.next)
+  rw [hs, helperOf_bin op hop] at hf hr
+  cases hp : pyDunders op with
+  | none => rw [hp] at hf; simp at hf
+  | some p =>
+    obtain ⟨fwd, refl⟩ := p
+    rw [hp] at hf hr
+    simp only [Option.bind_some, Option.map_some] at hf hr
+    have key : ∀ (id : Nat) (a : α), l.val = .arr a → l.isField = false → r = .field id →
+        ∃ w' rid, opBinary np w op l r = .ok (w', [rid]) ∧ ReturnsNew w w' rid n (np.call sym [x, y]) := by
+      intro id a hl hlf hrf
+      subst hrf
+      have hnc : op ∉ cmpOps := by
+        rcases hside with h | h
+        · rw [hlf] at h; cases h
+        · exact h
+      have hm := mirror_noncmp op hmem hnc
+      rw [hs] at hm
+      simp only [Option.map_some, Option.some.injEq] at hm
+      have hc : cmpOps.contains op = false := by simpa using hnc
+      rw [hm, hc] at hr
+      have hd : w.classOf id = some cls := by
+        cases l <;> simp_all [dispatchClass, Operand.isField]
+      simp only [Operand.under, hl] at hx
+      simp only [Operand.under, Operand.val] at hy
+      obtain ⟨w', h1, h2⟩ := run_binary np sym w (.arr a) (.fld id) x y n hw hx hy hn
+      refine ⟨w', w.next, ?_, rfl, hfresh, h2⟩
+      cases l with
+      | field _ => cases hlf
+      | array a' =>
+        simp only [Operand.val, Val.arr.injEq] at hl; subst hl
+        simp [opBinary, hp, hd, classes_defer cls hcls, callDunder, hr, pick, lookup_binary, h1, Operand.val]
+      | scalar a' =>
+        simp only [Operand.val, Val.arr.injEq] at hl; subst hl
+        simp [opBinary, hp, hd, classes_defer cls hcls, callDunder, hr, pick, lookup_binary, h1, Operand.val]
+    cases l with
+    | field id =>
+      simp only [dispatchClass] at hdisp
+      simp only [Operand.under, Operand.val] at hx hy
+      obtain ⟨w', h1, h2⟩ := run_binary np sym w (.fld id) r.val x y n hw hx hy hn
+      refine ⟨w', w.next, ?_, rfl, hfresh, h2⟩
+      simp [opBinary, hp, hdisp, callDunder, hf, pick, lookup_binary, h1]
+    | array a =>
+      cases r with
+      | field id => exact key id a rfl rfl rfl
+      | array b => simp [dispatchClass] at hdisp
+      | scalar b => simp [dispatchClass] at hdisp
+    | scalar a =>
+      cases r with
+      | field id => exact key id a rfl rfl rfl
+      | array b => simp [dispatchClass] at hdisp
+      | scalar b => simp [dispatchClass] at hdisp
+
+/-- **C13, comparisons with the field on the right** (`ndarray < field`, `3 >= field`, …): Python calls the field's MIRRORED
+    comparison on (field, other); under numpy's mirror law the result is again `sym(l', r')` in the order written. -/
+theorem reflected_comparison_eq_numpy (np : Numpy α) (w : World α) (op : String) (l : Operand α) (id : Nat) (cls sym n : String)
+    (x y : α) (hw : w.wf) (hop : op ∈ cmpOps) (hcls : cls ∈ classes) (hsup : supportsOp cls op = true)
+    (hl : l.isField = false) (hdisp : w.classOf id = some cls) (hm : MirrorLaw np)
+    (hx : l.under np w = .ok x) (hy : (Operand.field id : Operand α).under np w = .ok y) (hs : opSymbol op = some sym)
+    (hn : dtypeToStr (np.dtypeOf (np.call sym [x, y])) = some n) :
+    ∃ w' rid, opBinary np w op l (.field id) = .ok (w', [rid]) ∧ ReturnsNew w w' rid n (np.call sym [x, y]) := by
+  have hop' := cmp_sub_bin op hop
+  have hmem : op ∈ "divmod" :: binOps := List.mem_cons_of_mem _ hop'
+  have hr := reflected_route cls hcls op hmem hsup
+  have hfresh := World.get?_none_of_wf hw (Nat.le_refl w.next)
+  have hc : cmpOps.contains op = true := by simpa using hop
+  rw [hs, helperOf_bin op hop', hc] at hr
+  have law := hm op hop sym hs x y
+  rw [← law] at hn ⊢
+  cases hp : pyDunders op with
+  | none => rw [hp] at hr; simp at hr
+  | some p =>
+    obtain ⟨fwd, refl⟩ := p
+    rw [hp] at hr
+    simp only [Option.bind_some, Option.map_some] at hr
+    simp only [Operand.under, Operand.val] at hy
+    cases l with
+    | field _ => cases hl
+    | array a =>
+      simp only [Operand.under, Operand.val] at hx
+      obtain ⟨w', h1, h2⟩ := run_binary np (mirrorSym sym) w (.fld id) (.arr a) y x n hw hy hx hn
+      refine ⟨w', w.next, ?_, rfl, hfresh, h2⟩
+      simp [opBinary, hp, hdisp, classes_defer cls hcls, callDunder, hr, pick, lookup_binary, h1, Operand.val]
+    | scalar a =>
+      simp only [Operand.under, Operand.val] at hx
+      obtain ⟨w', h1, h2⟩ := run_binary np (mirrorSym sym) w (.fld id) (.arr a) y x n hw hy hx hn
+      refine ⟨w', w.next, ?_, rfl, hfresh, h2⟩
+      simp [opBinary, hp, hdisp, classes_defer cls hcls, callDunder, hr, pick, lookup_binary, h1, Operand.val]
+
+/-- **C13, unary operators.** `~f` is `operator.invert(f')`, `f.logical_not()` is `np.logical_not(f')`, for every class that has
+    them: one new NumericMemField with numpy's data and dtype name, nothing else changes. -/
+theorem unary_table_correct (np : Numpy α) (w : World α) (op : String) (id : Nat) (cls sym n : String) (x : α)
+    (hw : w.wf) (hop : op ∈ unOps) (hcls : cls ∈ classes) (hsup : supportsUnary cls op = true)
+    (hdisp : w.classOf id = some cls) (hx : (Operand.field id : Operand α).under np w = .ok x) (hs : opSymbol op = some sym)
+    (hn : dtypeToStr (np.dtypeOf (np.call sym [x])) = some n) :
+    (op = "~" → sym = "operator.invert") ∧ (op = "logical_not" → sym = "np.logical_not") ∧
+    ∃ w' rid, opUnary np w op id = .ok (w', [rid]) ∧ ReturnsNew w w' rid n (np.call sym [x]) := by
+  refine ⟨fun h => by subst h; simpa [opSymbol] using hs.symm, fun h => by subst h; simpa [opSymbol] using hs.symm, ?_⟩
+  have hr := unary_route cls hcls op hop hsup
+  have hfresh := World.get?_none_of_wf hw (Nat.le_refl w.next)
+  rw [hs] at hr
+  cases hp : pyUnary op with
+  | none => rw [hp] at hr; simp at hr
+  | some d =>
+    rw [hp] at hr
+    simp only [Option.bind_some, Option.map_some] at hr
+    simp only [Operand.under, Operand.val] at hx
+    obtain ⟨w', h1, h2⟩ := run_unary np sym w (.fld id) x n hw hx hn
+    refine ⟨w', w.next, ?_, rfl, hfresh, h2⟩
+    simp [opUnary, hp, hdisp, callDunder, hr, pick, lookup_unary, h1]
+
+/-- **C13, divmod.** `divmod(l, r)` with a field on either side returns a PAIR of distinct new NumericMemFields: the two
+    components of ONE `np.divmod(l', r')` call, in numpy's order (quotient, remainder), each under its own dtype name;
+    nothing that existed before changes. -/
+theorem divmod_returns_pair (np : Numpy α) (w : World α) (l r : Operand α) (cls n1 n2 : String) (x y : α)
+    (hw : w.wf) (hcls : cls ∈ classes) (hsup : supportsOp cls "divmod" = true) (hdisp : dispatchClass w l r = some cls)
+    (hx : l.under np w = .ok x) (hy : r.under np w = .ok y)
+    (hn1 : dtypeToStr (np.dtypeOf (np.call2 "np.divmod" [x, y]).1) = some n1)
+    (hn2 : dtypeToStr (np.dtypeOf (np.call2 "np.divmod" [x, y]).2) = some n2) :
+    ∃ w' q m, opDivmod np w l r = .ok (w', [q, m]) ∧ q = w.next ∧ m = w.next + 1 ∧ q ≠ m ∧
+      w.get? q = none ∧ w.get? m = none ∧
+      w'.get? q = some ⟨"NumericMemField", n1, some (np.call2 "np.divmod" [x, y]).1⟩ ∧
+      w'.get? m = some ⟨"NumericMemField", n2, some (np.call2 "np.divmod" [x, y]).2⟩ ∧
+      (∀ id, id < w.next → w'.get? id = w.get? id) ∧ w'.frames = w.frames ∧ w'.wf := by
+  obtain ⟨hf, hr⟩ := divmod_routes cls hcls hsup
+  have hfresh := World.get?_none_of_wf hw (Nat.le_refl w.next)
+  have hfresh2 := World.get?_none_of_wf hw (Nat.le_succ w.next)
+  have e1 : pyDunders "divmod" = some ("__divmod__", "__rdivmod__") := rfl
+  have fin : ∀ a b, unwrapVal np w a = .ok x → unwrapVal np w b = .ok y →
+      opDivmod np w l r = runProg np "np.divmod" divmodProg w [a, b] →
+      ∃ w' q m, opDivmod np w l r = .ok (w', [q, m]) ∧ q = w.next ∧ m = w.next + 1 ∧ q ≠ m ∧
+      w.get? q = none ∧ w.get? m = none ∧
+      w'.get? q = some ⟨"NumericMemField", n1, some (np.call2 "np.divmod" [x, y]).1⟩ ∧
+      w'.get? m = some ⟨"NumericMemField", n2, some (np.call2 "np.divmod" [x, y]).2⟩ ∧
+      (∀ id, id < w.next → w'.get? id = w.get? id) ∧ w'.frames = w.frames ∧ w'.wf := by
+    intro a b ha hb he
+    obtain ⟨w', h1, h2, h3, h4, h5, _, h7⟩ := run_divmod np "np.divmod" w a b x y n1 n2 hw ha hb hn1 hn2
+    exact ⟨w', w.next, w.next + 1, by rw [he, h1], rfl, rfl, by omega, hfresh, hfresh2, h2, h3, h4, h5, h7⟩
+  cases l with
+  | field id =>
+    simp only [dispatchClass] at hdisp
+    simp only [Operand.under, Operand.val] at hx hy
+    exact fin (.fld id) r.val hx hy (by simp [opDivmod, opBinary, e1, hdisp, callDunder, hf, pick, lookup_divmod])
+  | array a =>
+    cases r with
+    | field id =>
+      simp only [dispatchClass] at hdisp
+      simp only [Operand.under, Operand.val] at hx hy
+      exact fin (.arr a) (.fld id) hx hy
+        (by simp [opDivmod, opBinary, e1, hdisp, classes_defer cls hcls, callDunder, hr, pick, lookup_divmod, Operand.val])
+    | array b => simp [dispatchClass] at hdisp
+    | scalar b => simp [dispatchClass] at hdisp
+  | scalar a =>
+    cases r with
+    | field id =>
+      simp only [dispatchClass] at hdisp
+      simp only [Operand.under, Operand.val] at hx hy
+      exact fin (.arr a) (.fld id) hx hy
+        (by simp [opDivmod, opBinary, e1, hdisp, classes_defer cls hcls, callDunder, hr, pick, lookup_divmod, Operand.val])
+    | array b => simp [dispatchClass] at hdisp
+    | scalar b => simp [dispatchClass] at hdisp
+
+/-- **C13, operands untouched.** Whatever a supported binary operator or divmod returns (any operand kinds, either side), every
+    object that existed before the call — both operands included — and every dataframe is exactly as it was. No assumption on
+    numpy, on the operands' data or on the result dtype. -/
+theorem operands_unchanged (np : Numpy α) (w w' : World α) (op : String) (l r : Operand α) (cls : String) (ids : List Nat)
+    (hw : w.wf) (hop : op ∈ "divmod" :: binOps) (hcls : cls ∈ classes) (hsup : supportsOp cls op = true)
+    (hdisp : dispatchClass w l r = some cls) (h : opBinary np w op l r = .ok (w', ids)) :
+    (∀ id rec, w.get? id = some rec → w'.get? id = some rec) ∧ w'.frames = w.frames := by
+  obtain ⟨s, a, b, he⟩ := opBinary_runs np w op l r cls hop hcls hsup hdisp
+  rw [he] at h
+  have hfr : (∀ id, id < w.next → w'.get? id = w.get? id) ∧ w'.frames = w.frames := by
+    by_cases hd : op = "divmod"
+    · rw [if_pos hd] at h; exact run_divmod_frame np s w w' a b ids h
+    · rw [if_neg hd] at h; exact run_binary_frame np s w w' a b ids h
+  refine ⟨fun id rec hr => ?_, hfr.2⟩
+  rw [hfr.1 id (World.lt_next_of_get? hw hr)]; exact hr
+
+/-- … and the same for the unary operators -/
+theorem operands_unchanged_unary (np : Numpy α) (w w' : World α) (op : String) (id : Nat) (cls : String) (ids : List Nat)
+    (hw : w.wf) (hop : op ∈ unOps) (hcls : cls ∈ classes) (hsup : supportsUnary cls op = true)
+    (hdisp : w.classOf id = some cls) (h : opUnary np w op id = .ok (w', ids)) :
+    (∀ id rec, w.get? id = some rec → w'.get? id = some rec) ∧ w'.frames = w.frames := by
+  have hr := unary_route cls hcls op hop hsup
+  cases hp : pyUnary op with
+  | none => simp [supportsUnary, hp] at hsup
+  | some d =>
+    cases hs : opSymbol op with
+    | none => have := ops_total.2 op hop; rw [hs] at this; cases this
+    | some sym =>
+      rw [hp, hs] at hr
+      simp only [Option.bind_some, Option.map_some] at hr
+      simp [opUnary, hp, hdisp, callDunder, hr, pick, lookup_unary] at h
+      have hfr := run_unary_frame np sym w w' (.fld id) ids h
+      refine ⟨fun id rec hr => ?_, hfr.2⟩
+      rw [hfr.1 id (World.lt_next_of_get? hw hr)]; exact hr
+
+/-- when numpy's result dtype is one `dtype_to_str` does not name, the operator raises ValueError instead of inventing a name -/
+theorem unsupported_dtype_raises (np : Numpy α) (w : World α) (op : String) (id : Nat) (r : Operand α) (cls sym : String) (x y : α)
+    (hop : op ∈ binOps) (hcls : cls ∈ classes) (hsup : supportsOp cls op = true) (hdisp : w.classOf id = some cls)
+    (hx : (Operand.field id : Operand α).under np w = .ok x) (hy : r.under np w = .ok y) (hs : opSymbol op = some sym)
+    (hn : dtypeToStr (np.dtypeOf (np.call sym [x, y])) = none) :
+    opBinary np w op (.field id) r = .error (.valueError "Unsupported dtype") := by
+  have hmem : op ∈ "divmod" :: binOps := List.mem_cons_of_mem _ hop
+  have hf := forward_route cls hcls op hmem hsup
+  rw [hs, helperOf_bin op hop] at hf
+  cases hp : pyDunders op with
+  | none => rw [hp] at hf; simp at hf
+  | some p =>
+    obtain ⟨fwd, refl⟩ := p
+    rw [hp] at hf
+    simp only [Option.bind_some, Option.map_some] at hf
+    have h := run_binary_unsupported np sym w (.fld id) r.val x y hx hy hn
+    simp [opBinary, hp, hdisp, callDunder, hf, pick, lookup_binary, h]
+
+/-- **C13, assignment into a dataframe.** `df[name] = f` for a numeric field `f` holding data `a` (every operator result is one),
+    `name` not yet a column: the dataframe gets a NEW NumericField column `name` declared with `f`'s dtype name and holding the
+    values h5py stores for `a` in a dataset of that dtype; `f` itself, the operands and every other object are unchanged; the other
+    columns keep their place. `hcast`: writing an array into a dataset of its own dtype stores it unchanged (numpy / h5py). -/
+theorem setitem_stores_result (np : Numpy α) (w : World α) (df : Nat) (name : String) (rid : Nat) (cols : List (String × Nat))
+    (rec : FieldRec α) (a : α) (hw : w.wf) (hf : w.frame? df = some cols) (hr : w.get? rid = some rec)
+    (hc : createLikeTarget rec.cls = some "NumericField") (hd : rec.data = some a)
+    (hnew : cols.any (fun c => c.1 == name) = false) (hcast : np.cast rec.dtype a = a) :
+    ∃ w', setItem np w df name rid = .ok w' ∧
+      w'.column? df name = some ⟨"NumericField", rec.dtype, some a⟩ ∧
+      w'.frame? df = some (cols ++ [(name, w.next)]) ∧ w.get? w.next = none ∧
+      (∀ id rec', w.get? id = some rec' → w'.get? id = some rec') ∧ w'.get? rid = some rec ∧
+      (∀ d, d ≠ df → w'.frame? d = w.frame? d) := by
+  have hfresh := World.get?_none_of_wf hw (Nat.le_refl w.next)
+  have keep : ∀ id rec', w.get? id = some rec' →
+      ((w.alloc ⟨"NumericField", rec.dtype, none⟩).put w.next ⟨"NumericField", rec.dtype, some a⟩).get? id = some rec' := by
+    intro id rec' h
+    have : ¬ w.next = id := by have := World.lt_next_of_get? hw h; omega
+    simp [this, h]
+  have hfind : (cols ++ [(name, w.next)]).find? (fun c => c.1 == name) = some (name, w.next) := by
+    rw [List.find?_append]
+    have : cols.find? (fun c => c.1 == name) = none := by
+      rw [List.find?_eq_none]
+      intro c hcm
+      have := List.any_eq_false.mp hnew c hcm
+      simpa using this
+    simp [this]
+  refine ⟨_, by simp [setItem, hf, hr, hc, hnew, hd, hcast]; rfl, ?_, ?_, hfresh, ?_, ?_, ?_⟩
+  · simp [World.column?, World.frame?, hfind, World.get?, World.put, World.alloc]
+  · simp [World.frame?]
+  · intro id rec' h
+    have := keep id rec' h
+    simpa [World.get?, World.put, World.alloc] using this
+  · have := keep rid rec hr
+    simpa [World.get?, World.put, World.alloc] using this
+  · intro d hd'
+    have : (df == d) = false := by simpa using fun e => hd' e.symm
+    simp [World.frame?, this]
+
+/-- assigning under a name the dataframe already has raises ValueError (from `create_like`) before anything is written -/
+theorem setitem_existing_name_raises (np : Numpy α) (w : World α) (df : Nat) (name : String) (rid : Nat)
+    (cols : List (String × Nat)) (rec : FieldRec α) (hf : w.frame? df = some cols) (hr : w.get? rid = some rec)
+    (hc : createLikeTarget rec.cls = some "NumericField") (hex : cols.any (fun c => c.1 == name) = true) :
+    setItem np w df name rid = .error (.valueError "Field already exists in group") := by
+  simp [setItem, hf, hr, hc, hex]
+
+/-- every operator result can be assigned: `create_like` of a NumericMemField (and of a NumericField) is the numeric route -/
+theorem result_class_assignable : createLikeTarget "NumericMemField" = some "NumericField" ∧
+    createLikeTarget "NumericField" = some "NumericField" := by decide
+
+end whole
+
+/-! ### non-vacuity: a toy numpy over `Int` "arrays", a heap with one HDF5 field, one memory field and a dataframe -/
+
+/-- integers as one-element arrays; comparisons give 0 / 1 -/
+def toyNp : Numpy Int where
+  call s xs := match s, xs with
+    | "operator.sub", [a, b] => a - b
+    | "operator.lt", [a, b] => if a < b then 1 else 0
+    | "operator.gt", [a, b] => if a > b then 1 else 0
+    | "operator.le", [a, b] => if a ≤ b then 1 else 0
+    | "operator.ge", [a, b] => if a ≥ b then 1 else 0
+    | "operator.eq", [a, b] => if a = b then 1 else 0
+    | "operator.ne", [a, b] => if a ≠ b then 1 else 0
+    | "operator.invert", [a] => -a - 1
+    | _, _ => 0
+  call2 _ xs := match xs with
+    | [a, b] => (a / b, a % b)
+    | _ => (0, 0)
+  dtypeOf _ := "np.int64"
+  append a _ := a
+  zeros0 _ := 0
+  cast _ a := a
+
+def toyWorld : World Int :=
+  { fields := [(0, ⟨"NumericField", "int64", some 3⟩), (1, ⟨"TimestampMemField", "float64", some 20⟩)], next := 2,
+    frames := [(0, [("x", 0)])] }
+
+theorem toyWorld_wf : toyWorld.wf := by unfold World.wf; decide
+
+theorem toy_mirror : MirrorLaw toyNp := by
+  intro op hop s hs x y
+  simp only [cmpOps, List.mem_cons, List.not_mem_nil, or_false] at hop
+  rcases hop with rfl | rfl | rfl | rfl | rfl | rfl <;> simp only [opSymbol, Option.some.injEq] at hs <;> subst hs <;>
+    simp [mirrorSym, toyNp, eq_comm]
+
+-- a reflected NON-COMMUTATIVE operator with an ndarray on the left: `array(10) - field(3)` is `operator.sub(10, 3)`, not (3, 10)
+example : ((opBinary toyNp toyWorld "-" (.array 10) (.field 0)).toOption.map (fun p => (p.1.get? 2, p.2, p.1.get? 0))) =
+    some (some ⟨"NumericMemField", "int64", some 7⟩, [2], some ⟨"NumericField", "int64", some 3⟩) := by decide +kernel
+example := operator_result_eq_numpy toyNp toyWorld "-" (.array 10) (.field 0) "NumericField" "operator.sub" "int64" 10 3
+  toyWorld_wf (by decide) (by decide) (by decide) (by decide) (by decide) rfl rfl rfl (by decide)
+-- `array(10) < field(3)` goes through `NumericField.__gt__(field, array)`
+example : ((opBinary toyNp toyWorld "<" (.array 10) (.field 0)).toOption.map (fun p => p.1.get? 2)) =
+    some (some ⟨"NumericMemField", "int64", some 0⟩) := by decide +kernel
+example := reflected_comparison_eq_numpy toyNp toyWorld "<" (.array 10) 0 "NumericField" "operator.lt" "int64" 10 3
+  toyWorld_wf (by decide) (by decide) (by decide) rfl (by decide) toy_mirror rfl rfl rfl (by decide)
+-- divmod with the field on the right: `divmod(scalar 20, field 3)` = (6, 2), two distinct new fields
+example : ((opDivmod toyNp toyWorld (.scalar 20) (.field 0)).toOption.map (fun p => (p.2, p.1.get? 2, p.1.get? 3))) =
+    some ([2, 3], some ⟨"NumericMemField", "int64", some 6⟩, some ⟨"NumericMemField", "int64", some 2⟩) := by decide +kernel
+example := divmod_returns_pair toyNp toyWorld (.scalar 20) (.field 0) "NumericField" "int64" "int64" 20 3
+  toyWorld_wf (by decide) (by decide) (by decide) rfl rfl (by decide) (by decide)
+-- timestamp field on the left, numeric field on the right
+example := operator_result_eq_numpy toyNp toyWorld "-" (.field 1) (.field 0) "TimestampMemField" "operator.sub" "int64" 20 3
+  toyWorld_wf (by decide) (by decide) (by decide) (by decide) (by decide) rfl rfl rfl (by decide)
+example := unary_table_correct toyNp toyWorld "~" 0 "NumericField" "operator.invert" "int64" 3
+  toyWorld_wf (by decide) (by decide) (by decide) (by decide) rfl rfl (by decide)
+example := operands_unchanged toyNp toyWorld
+  (toyWorld.alloc ⟨"NumericMemField", "int64", none⟩ |>.put 2 ⟨"NumericMemField", "int64", some 7⟩) "-" (.array 10) (.field 0)
+  "NumericField" [2] toyWorld_wf (by decide) (by decide) (by decide) (by decide) (by rfl)
+-- `df['r'] = (array(10) - field)`
+example : ((opBinary toyNp toyWorld "-" (.array 10) (.field 0)).toOption.bind (fun p =>
+    (setItem toyNp p.1 0 "r" 2).toOption.map (fun w => (w.column? 0 "r", w.column? 0 "x", w.get? 2)))) =
+    some (some ⟨"NumericField", "int64", some 7⟩, some ⟨"NumericField", "int64", some 3⟩,
+      some ⟨"NumericMemField", "int64", some 7⟩) := by decide +kernel
+example := setitem_stores_result toyNp toyWorld 0 "r" 0 [("x", 0)] ⟨"NumericField", "int64", some 3⟩ 3
+  toyWorld_wf (by decide) (by decide) (by decide) rfl (by decide) rfl
+example : setItem toyNp toyWorld 0 "x" 0 = .error (.valueError "Field already exists in group") := by rfl
+example : Gen.helperProgs.length = 3 ∧ Gen.arrayProtocol.length = 6 := by decide
 
 end Exetera.Props.C13
